@@ -1,7 +1,8 @@
 import WzVerif.Driver.Proto
 import WzVerif.Model.Chunked
+import WzVerif.Model.DevServer
 namespace Wz.Driver.C19
-open Wz Wz.Proto Wz.Chunked
+open Wz Wz.Proto Wz.Chunked Wz.DevServer
 
 def natList (s : String) : Option (List Nat) :=
   if s == "[]" then some [] else (s.splitOn ",").mapM String.toNat?
@@ -24,6 +25,17 @@ def chunkList (s : String) : Option (List (Bytes × Term × Bool)) :=
 
 def bytesList (s : String) : Option (List Bytes) :=
   if s == "[]" then some [] else (s.splitOn ",").mapM unhex
+
+def pairList (hs : String) : Option (List (Str × Str)) :=
+  if hs == "[]" then some [] else
+  (hs.splitOn ",").mapM fun p =>
+    match p.splitOn ":" with
+    | [k, v] => match unhexStr k, unhexStr v with
+      | some k, some v => some (k, v)
+      | _, _ => none
+    | _ => none
+
+def showEnv (env : Env) : String := outList (fun (k, v) => hexStr k ++ ":" ++ hexStr v) env
 
 def handle : Handler
   | "dechunk.run", [wire, sizes] =>
@@ -63,6 +75,25 @@ def handle : Handler
     match parsed with
     | some hs => some (outList (fun (k, v) => hexStr k ++ ":" ++ hexStr v) (foldHeaders hs))
     | none => some badArgs
+  | "env.make", [cmd, path, version, hs] =>
+    match unhexStr cmd, unhexStr path, unhexStr version, pairList hs with
+    | some cmd, some path, some version, some hs =>
+      some (match makeEnviron cmd path version hs with
+        | none => "OUT-OF-DOMAIN"
+        | some e => "|".intercalate [hexStr e.method, hexStr e.pathInfo, hexStr e.query, hexStr e.protocol,
+            hexStr e.rawUri, outBool e.terminated, showEnv e.headers])
+    | _, _, _, _ => some badArgs
+  | "env.hspath", [target] =>
+    match unhexStr target with
+    | some t => some (hexStr (httpServerPath t))
+    | none => some badArgs
+  | "resp.wire", [proto, status, shs, hs, isHead, written, yielded] =>
+    match unhexStr proto, unhexStr status, pairList shs, pairList hs, boolArg isHead, bytesList written,
+        bytesList yielded with
+    | some proto, some status, some shs, some hs, some isHead, some written, some yielded =>
+      let r : Resp := { protocol := proto, status := status, serverHeaders := shs, headers := hs, isHead := isHead }
+      some (hex (runWsgi r written yielded))
+    | _, _, _, _, _, _, _ => some badArgs
   | "resp.body", [chunked, pieces] =>
     match boolArg chunked, bytesList pieces with
     | some chunked, some pieces => some (hex (bodyWire chunked pieces))
